@@ -65,9 +65,49 @@ def gen(repo):
                             rows.append((cls.name, pname, k, "pinned:" + ast.unparse(v)[:40]))
                     if "**" in passed and try_dotted(passed["**"]) != var_kw:
                         raise TransError("%s.__init__ splats %s" % (cls.name, ast.unparse(passed["**"])))
+    # objects built inside the model classes: which keyword gets which value
+    INNER = ("EOF", "ComplexEOF", "HilbertEOF", "PCA", "SVD", "Preprocessor", "Whitener", "Decomposer")
+    inner, idx = [], []
+    for d in DIRS + ("xeofs/preprocessing",):
+        for path in sorted(glob.glob(os.path.join(repo, d, "*.py"))):
+            rel = os.path.relpath(path, repo)
+            tree, _ = parse_file(repo, rel)
+            for cls in tree.body:
+                if not isinstance(cls, ast.ClassDef):
+                    continue
+                for fn in cls.body:
+                    if not isinstance(fn, ast.FunctionDef):
+                        continue
+                    for st in ast.walk(fn):
+                        if not isinstance(st, ast.Assign) or len(st.targets) != 1:
+                            continue
+                        tgt = try_dotted(st.targets[0]) or "?"
+                        for call in ast.walk(st.value):
+                            if not (isinstance(call, ast.Call) and isinstance(call.func, ast.Name) and call.func.id in INNER and call.keywords):
+                                continue
+                            for k in call.keywords:
+                                if k.arg is None:
+                                    inner.append((cls.name, fn.name, tgt, call.func.id, "**", ast.unparse(k.value)[:60]))
+                                    continue
+                                inner.append((cls.name, fn.name, tgt, call.func.id, k.arg, ast.unparse(k.value)[:60]))
+                                v = k.value
+                                if cls.name == "BaseModelCrossSet" and fn.name == "__init__" and isinstance(v, ast.Subscript):
+                                    if not (isinstance(v.slice, ast.Constant) and isinstance(v.slice.value, int) and isinstance(v.value, ast.Name)):
+                                        raise TransError("BaseModelCrossSet.__init__: %s=%s is not name[int]" % (k.arg, ast.unparse(v)))
+                                    if not (tgt.startswith("self.") and tgt[-1] in "12"):
+                                        raise TransError("BaseModelCrossSet.__init__: per-field value handed to %s" % tgt)
+                                    idx.append((tgt[5:], k.arg, int(tgt[-1]), v.slice.value))
+    if not idx:
+        raise TransError("BaseModelCrossSet.__init__ builds no per-field stage")
     out = ["(* generated by tools/py2coq/t8_forward.py *)", "From Coq Require Import String List Bool.", "Import ListNotations.", "Open Scope string_scope.", "",
            "(* (class, parent constructor called, parameter or keyword, what happens to it) for every row that is not a plain forward *)",
            "Definition ctor_special : list (string * string * string * string) :=\n  [%s].\n"
            % ";\n   ".join('("%s", "%s", "%s", "%s")' % (c, pn, p, h.replace('"', "'")) for c, pn, p, h in rows if h != "same"),
-           "Definition ctor_plain_forwards : nat := %d.\n" % sum(1 for r in rows if r[3] == "same")]
+           "Definition ctor_plain_forwards : nat := %d.\n" % sum(1 for r in rows if r[3] == "same"),
+           "(* (stage attribute, keyword, number of the field the stage belongs to, index taken from the per-field parameter) in BaseModelCrossSet.__init__ *)",
+           "Definition cross_stage_field_indices : list (string * string * nat * nat) :=\n  [%s].\n"
+           % ";\n   ".join('("%s", "%s", %d, %d)' % r for r in idx),
+           "(* (class, method, target, class of the object built, keyword, value) for every object the model classes build with keywords *)",
+           "Definition inner_objects : list (string * string * string * string * string * string) :=\n  [%s].\n"
+           % ";\n   ".join('("%s", "%s", "%s", "%s", "%s", "%s")' % tuple(x.replace('"', "'") for x in r) for r in inner)]
     return "\n".join(out)
